@@ -12,7 +12,7 @@
      shapes whose clauses are rendered out of textual order or late (SQL Server / Oracle offset before limit, MySQL UPDATE .. ORDER BY / LIMIT);
    - C04_styles: the placeholder table regenerated from /repo is the dialects' (numbered for PostgreSQL only). *)
 From PT Require Import Base.Str Model.Types Model.Value Model.Interval Model.Syntax Gen.Ctx Gen.Enums Gen.Prec Gen.Placeholders Model.Render
-     Ref.Lexer Ref.Align Ref.ParamEq.
+     Ref.Lexer Ref.Align Ref.ParamEq Proofs.Thr Proofs.Thread.
 Open Scope N_scope.
 Definition tbl : term := TTable (MkTRef true (L "t") [] None 0) NoT NoT.
 Definition fld (n : string) : term := TField (L n) None None.
@@ -97,6 +97,26 @@ Proof.
   destruct (k mod 10) as [|p]; [destruct b; reflexivity|].
   do 4 (destruct p as [p|p|]; try (destruct b; reflexivity)); exfalso; revert H; clear; intro H; compute in H; destruct p; discriminate.
 Qed.
+
+(* ---- the parameterizer is threaded through EVERY term and statement (mutual induction over the 16 sorts, Proofs/Thread.v) ---- *)
+Theorem C04_thread : forall (t : term) (c : ctx) (z : pzs) (s : str) (p' : pz),
+  render c (Some z) t = Ok (s, p') ->
+  exists z' ext, p' = Some z' /\ pz_factory z' = pz_factory z /\ pz_vals z' = pz_vals z ++ ext.
+Proof.
+  intros t c z s p' H. pose proof (thread_term t c (Some z) s p' H) as T. destruct p' as [z'|]; [|destruct T].
+  destruct T as [F [ext E]]. exists z', ext. auto.
+Qed.
+Print Assumptions C04_thread.
+
+Theorem C04_inline_none : forall (t : term) (c : ctx) (s : str) (p' : pz), render c None t = Ok (s, p') -> p' = None.
+Proof. intros t c s p' H. pose proof (thread_term t c None s p' H) as T. destruct p'; [destruct T|reflexivity]. Qed.
+Print Assumptions C04_inline_none.
+
+Theorem C04_thread_statement : forall (q : query) (c : ctx) (z : pzs) (s : str) (p' : pz),
+  render_query c (Some z) q = Ok (s, p') ->
+  exists z' ext, p' = Some z' /\ pz_factory z' = pz_factory z /\ pz_vals z' = pz_vals z ++ ext.
+Proof. intros q c z s p' H. apply (C04_thread (TQuery q) c z s p'). exact H. Qed.
+Print Assumptions C04_thread_statement.
 
 Example C04_nonvacuous :
   c04_ok POSTGRESQL (Some (placeholder_style POSTGRESQL)) (L "SELECT $1,""a"" FROM ""t"" WHERE ""b""=$2 AND ""c"" IN ($3,$4)")
